@@ -82,6 +82,10 @@ fn make_case(arg_lists: &[Vec<usize>], iface_oneway: bool, method_oneway_mask: u
                 if a.name.is_some() {
                     a.name = Some(format!("a{j}"));
                 }
+                // in one variant all arguments of a method are named, with one and the same name
+                if const_at == Some(1) {
+                    a.name = Some("same".to_string());
+                }
                 // every third argument carries an annotation (between direction and type)
                 if (i + 2 * j) % 3 == 0 {
                     a.annots.push(Annot::simple("@nullable"));
